@@ -6,6 +6,7 @@ T8b  head of `Segmentation._get_pixels_by_seg_frame`: the largest output value (
 T8c  LABELMAP branch of `_get_pixels_by_seg_frame`: `need_remap` and the intermediate dtype.
 T8d  BINARY/FRACTIONAL branch: intermediate dtype, the float-dtype requirement of a rescaled read and the refusal
      to combine a FRACTIONAL segmentation without rescaling.
+T8e  LABELMAP branch, `if need_remap:`: size and dtype of the remapping table and the value of one cell (both loops).
 
 dtype codes (shared with Model/SegRead.lean `DType.ofCode`): uintN -> N, intN -> 100+N, floatN -> 200+N, bool -> 1.
 
@@ -267,7 +268,79 @@ def build_T8d(tree):
     return text, span_sha([i_resc, guard])
 
 
+def build_T8e(tree):
+    """LABELMAP branch, `if need_remap:` — the remapping table, one cell at a time.
+
+    `remapping = np.zeros(SIZE, dtype=DT)` followed by `for s in range(E): remapping[s] = V` is rendered as
+    `entry = 0` and `entry = V if 0 <= s < E else entry` for a symbolic cell index `s` (a cell the loop does not
+    reach keeps the zero of `np.zeros`); the result is (SIZE, DT, entry).  The table must still be applied as
+    `out_array = remapping[out_array]`."""
+    fn = _seg_frame(tree)
+    lm = _top_if(fn, lambda t: t == 'self.segmentation_type==SegmentationTypeValues.LABELMAP', 'LABELMAP branch')
+    nr = None
+    for st in lm.body:
+        if isinstance(st, ast.If) and _norm(st.test) == 'need_remap':
+            nr = st
+    if nr is None or nr.orelse:
+        raise Unsupported('`if need_remap:` (without else) not found in the LABELMAP branch')
+    body = copy.deepcopy(nr.body)
+    if not (isinstance(body[-1], ast.Assign) and _norm(body[-1]) == 'out_array=remapping[out_array]'):
+        raise Unsupported('the remapping is no longer applied as out_array = remapping[out_array]')
+    out = []
+    seen_zeros = False
+
+    def conv_for(node):
+        if not (isinstance(node.target, ast.Name) and node.target.id == 's' and isinstance(node.iter, ast.Call)
+                and ast.unparse(node.iter.func) == 'range' and len(node.iter.args) == 1 and not node.orelse
+                and len(node.body) == 1 and isinstance(node.body[0], ast.Assign)
+                and _norm(node.body[0].targets[0]) == 'remapping[s]'):
+            raise Unsupported('remapping loop is no longer `for s in range(E): remapping[s] = V`')
+        e = ast.unparse(node.iter.args[0])
+        v = ast.unparse(node.body[0].value)
+        return ast.parse(f'entry = (({v}) if (0 <= s and s < ({e})) else entry)').body[0]
+
+    def conv(stmts):
+        nonlocal seen_zeros
+        res = []
+        for st in stmts:
+            if isinstance(st, ast.Assign) and _norm(st.targets[0]) == 'remapping':
+                v = st.value
+                if not (isinstance(v, ast.Call) and ast.unparse(v.func) in ('np.zeros', 'numpy.zeros') and len(v.args) == 1
+                        and len(v.keywords) == 1 and v.keywords[0].arg == 'dtype'):
+                    raise Unsupported('remapping is no longer np.zeros(SIZE, dtype=DT)')
+                seen_zeros = True
+                res.append(ast.parse(f'table_len = {ast.unparse(v.args[0])}').body[0])
+                res.append(ast.parse(f'table_dtype = {ast.unparse(v.keywords[0].value)}').body[0])
+                res.append(ast.parse('entry = 0').body[0])
+            elif isinstance(st, ast.For):
+                if not seen_zeros:
+                    raise Unsupported('remapping loop before the table is created')
+                res.append(conv_for(st))
+            elif isinstance(st, ast.If):
+                st.body = conv(st.body)
+                st.orelse = conv(st.orelse)
+                res.append(st)
+            else:
+                res.append(st)
+        return res
+    stmts = conv(body[:-1])
+    stmts.append(ast.parse('return (table_len, table_dtype, entry)').body[0])
+    stmts = _clean(stmts)
+    attrs = {
+        'max(self.segment_numbers)': ('int', 'maxStored'),
+        "self.get('PixelPaddingValue', 0)": ('int', 'paddingValue'),
+        's in segment_numbers': ('bool', 'sRequested'),
+        'np.nonzero(segment_numbers == s)[0][0]': ('int', 'firstIndex'),
+    }
+    text = translate_block(
+        stmts, 'remapCell',
+        [('combine_segments', 'bool'), ('relabel', 'bool'), ('dtype', 'int'), ('intermediate_dtype', 'int'), ('s', 'int')], attrs,
+        doc='LABELMAP branch, `if need_remap:`: (length of the remapping table, its dtype code, the value of cell `s`)')
+    return text, span_sha(nr.body)
+
+
 TARGETS = {
+    'T8e': {'file': 'seg/sop.py', 'build': build_T8e},
     'T8': {'file': 'seg/sop.py', 'build': build_T8},
     'T8b': {'file': 'seg/sop.py', 'build': build_T8b},
     'T8c': {'file': 'seg/sop.py', 'build': build_T8c},
